@@ -219,7 +219,8 @@ class RunContext:
         self.transitions = set()
         self.clock = SimClock(self, plan.get("clock"))
         self.trivial_reason = None
-        self.obs = {}
+        self.obs = {}      # exported with the run summary (canonical JSON)
+        self.scratch = {}  # per-run objects of the check, never exported
         # seam state (see seams.py)
         self.ties = DecisionList(plan.get("ties"), 0)
         self.oracle_log = []
@@ -686,8 +687,9 @@ def drive(check_id: str, tier: str, master: int | None, workers: int | None = No
             rc = max(rc, 1)
     # ---- determinism self-test ------------------------------------------------
     det = determinism_selftest(check_id, tier, master, cfg, workers, br, log)
-    if not det["ok"]:
-        rc = max(rc, 2)
+    if not det["ok"] and rc == 0:
+        # (with a confirmed violation already reported, a nondeterministic system under test keeps exit 1)
+        rc = 2
     # ---- known findings -------------------------------------------------------
     known_seen = Counter()
     for r in br.results:
@@ -704,6 +706,8 @@ def drive(check_id: str, tier: str, master: int | None, workers: int | None = No
         log(f"evidence not written: {e}")
         if rc == 0:
             rc = 2
+    if violations:
+        rc = 1  # a confirmed, replayable violation decides the exit status, whatever else went wrong
     n = len(br.results)
     log(f"property={check_id} runs={n} wall={wall:.1f}s violations={len(violations)} "
         f"known={dict(known_seen)} capped={br.wall_capped} rc={rc}")
